@@ -369,6 +369,41 @@ def render (s : St) : Bytes :=
   s.pieces.flatMap (renderPiece s.chunking) ++
   (if s.terminator then strBytes "0\r\n\r\n" else [])
 
+/-! ## statusLine()'s process-wide cache (`statusLines`), as state threaded through a history of exchanges -/
+
+/-- cache key: `code` for HTTP/1.1, `-code` otherwise -/
+def cacheKey (proto11 : Bool) (code : Nat) : Int := if proto11 then (code : Int) else -(code : Int)
+
+abbrev Cache := List (Int × Bytes)
+
+/-- statusLine(req, code): fast path = cached line; slow path builds the line and caches it under
+    `key` when the code has an official text -/
+def statusLineCached (cache : Cache) (proto11 : Bool) (code : Nat) : Bytes × Cache :=
+  let key := cacheKey proto11 code
+  match cache.lookup key with
+  | some l => (l, cache)
+  | none =>
+    let l := statusLine proto11 code
+    (l, if (statusText code).isSome then (key, l) :: cache else cache)
+
+/-- `render` with the status line taken through the cache -/
+def renderCached (cache : Cache) (s : St) : Bytes × Cache :=
+  match s.head with
+  | none => (render s, cache)
+  | some (c, ls) =>
+    let (sl, cache') := statusLineCached cache s.rq.proto11 c
+    (sl ++ crlf ++ ls.flatMap (fun kv => strBytes kv.1 ++ strBytes ": " ++ strBytes kv.2 ++ crlf) ++ crlf ++
+       s.pieces.flatMap (renderPiece s.chunking) ++ (if s.terminator then strBytes "0\r\n\r\n" else []),
+     cache')
+
+/-- a history of exchanges (each on its own connection) in one process; the cache starts empty -/
+def history (cache : Cache) : List (Req × Bool × List Act) → List (St × Bytes)
+  | [] => []
+  | (rq, ka, script) :: t =>
+    let s := respond rq ka script
+    let (b, cache') := renderCached cache s
+    (s, b) :: history cache' t
+
 /-! ## SPEC: how an RFC 7230 recipient delimits the response -/
 
 inductive Framing where
@@ -552,15 +587,20 @@ def statusClass (isHead : Bool) (st : Nat) : String :=
   if st == 204 then "204" else if st == 304 then "304" else if st < 200 then "1xx"
   else if isHead then "head" else "other"
 
-/-- The C27 verdict on one exchange: `out` are the bytes the implementation put on the wire,
+/-- The C27 verdict on one exchange (`proto11`: the request was HTTP/1.1): `out` are the bytes the implementation put on the wire,
     `close` its closeAfterReply, `wres` the results of the handler's Write calls. -/
-def judge (isHead : Bool) (script : List Act) (close : Bool) (wres : List Nat) (out : Bytes) : String :=
+def judge (isHead proto11 : Bool) (script : List Act) (close : Bool) (wres : List Nat) (out : Bytes) : String :=
   let st := expectedStatus script
   if st < 100 || st > 999 then "skip" else
   match rfcResponse isHead out with
   | none => "FAIL:unparseable"
   | some p =>
     if p.status != st then "FAIL:status"
+    -- RFC 7230 3.3.1: no Transfer-Encoding towards a recipient that is told it gets HTTP/1.0
+    else if !p.proto11 && !bodylessStatus isHead st && !(fieldList p.lines "transfer-encoding").isEmpty then
+      "FAIL:chunked-on-http10-status"
+    -- the status line carries the version bfe answers this request with (HTTP/1.1 iff the request is >= 1.1)
+    else if p.proto11 != proto11 then "FAIL:status-version-wrong"
     else if p.framing == .invalid then
       (if (fieldList p.lines "transfer-encoding").isEmpty then "FAIL:bad-content-length" else "FAIL:te-chunked-twice")
     else if !p.complete && !close then "FAIL:truncated-no-close"
